@@ -114,6 +114,92 @@ pub fn execute(plan: &Plan, entropy: u64) -> RunReport {
             }};
         }
 
+        if g.variant == 2 {
+            // ---- mutable records updated in place; the version held must never be fetched again -----------------------
+            // `capacity` mutable records (register / transaction kind alternately), each put in 1..3 successive
+            // versions through the real PutLocalRecord handler (write, acknowledgement, index update all real);
+            // then a close neighbour advertises, per record, the version held (must schedule nothing), and for
+            // `n_far` records a version nobody holds here (should be tracked).
+            let n = g.capacity.max(1);
+            let mutable_value = |i: usize, version: u32| -> Vec<u8> {
+                let kind = if i % 2 == 0 { RecordKind::Register } else { RecordKind::Transaction };
+                try_serialize_record(&(key_bytes(seed, "mut", i as u64), version), kind).expect("serialize").to_vec()
+            };
+            let keys: Vec<Vec<u8>> = (0..n).map(|i| key_bytes(seed, "mutkey", i as u64)).collect();
+            let mut version_held: Vec<u32> = vec![0; n];
+            for i in 0..n {
+                let versions = 1 + g.arrivals[i % g.arrivals.len()] % 3;
+                for v in 1..=versions {
+                    let rec = Record { key: RecordKey::new(&keys[i]), value: mutable_value(i, v), publisher: None, expires: None };
+                    let _ = driver.verif_handle_local_cmd(LocalSwarmCmd::PutLocalRecord { record: rec });
+                    // the second half of the records: all versions are issued back to back, acknowledged afterwards
+                    if i < n / 2 || v == versions {
+                        quiesce!();
+                    }
+                    version_held[i] = v;
+                }
+                if versions > 1 {
+                    rep.probe("mutable_record_updated_in_place");
+                }
+            }
+            quiesce!();
+            while events.try_recv().is_ok() {}
+            let holder = ed_key(seed, 1).public().to_peer_id();
+            let addr = format!("/ip4/10.0.0.9/udp/9000/quic-v1/p2p/{holder}").parse().expect("multiaddr");
+            if !driver.verif_add_peer(holder, addr) {
+                rep.harness_error = Some("holder not accepted by the routing table".into());
+                return rep;
+            }
+            let hash_of = |value: &[u8]| xor_name::XorName::from_content(value);
+            let new_for: Vec<usize> = (0..g.n_far.min(n)).map(|j| (g.arrivals[(j + 3) % g.arrivals.len()] as usize) % n).collect();
+            // list shapes: one periodic list with every record, then single-record lists (fresh-record notifications)
+            let mut lists: Vec<Vec<(usize, u32)>> = vec![(0..n).map(|i| (i, if new_for.contains(&i) { version_held[i] + 7 } else { version_held[i] })).collect()];
+            for k in 0..g.n_near.min(n) {
+                let i = (g.arrivals[(k + 5) % g.arrivals.len()] as usize) % n;
+                lists.push(vec![(i, version_held[i])]);
+            }
+            for (li, list) in lists.iter().enumerate() {
+                let adv: Vec<(NetworkAddress, RecordType)> = list
+                    .iter()
+                    .map(|(i, v)| (NetworkAddress::from_record_key(&RecordKey::new(&keys[*i])), RecordType::NonChunk(hash_of(&mutable_value(*i, *v)))))
+                    .collect();
+                rep.ops += 1;
+                rep.log(format!("list #{li}: {} mutable records advertised, {} of them in a version not held", adv.len(), list.iter().filter(|(i, v)| *v != version_held[*i]).count()));
+                driver.verif_handle_replicate_request(NetworkAddress::from_peer(holder), adv);
+                quiesce!();
+                let mut scheduled: Vec<Vec<u8>> = vec![];
+                while let Ok(ev) = events.try_recv() {
+                    if let NetworkEvent::KeysToFetchForReplication(ks) = ev {
+                        scheduled.extend(ks.into_iter().map(|(_, k)| k.to_vec()));
+                    }
+                }
+                let tracked: Vec<(Vec<u8>, RecordType)> = driver.verif_fetcher_in_flight().into_iter().chain(driver.verif_fetcher_queued()).map(|(k, t, _)| (k.to_vec(), t)).collect();
+                for (i, v) in list {
+                    let held_version = *v == version_held[*i];
+                    let ty = RecordType::NonChunk(hash_of(&mutable_value(*i, *v)));
+                    let is_tracked = tracked.iter().any(|(k, t)| *k == keys[*i] && *t == ty);
+                    if held_version && (is_tracked || (list.len() == 1 && scheduled.contains(&keys[*i]))) {
+                        rep.violate(
+                            PROP,
+                            "held.fetch_scheduled_for_held_record",
+                            &[("glue", "real_driver".into()), ("shape", "mutable_record_updated_in_place".into())],
+                            format!("the node holds record {} in version {} (written in place over {} earlier version(s), acknowledged) and still schedules a fetch of exactly that version when a neighbour advertises it", hex::encode(&keys[*i][..3]), v, v - 1),
+                        );
+                        hooks::gates_uninstall();
+                        return rep;
+                    }
+                    if !held_version {
+                        rep.probe(if is_tracked { "unheld_version_of_held_record_tracked" } else { "unheld_version_of_held_record_not_tracked_yet" });
+                    }
+                }
+                rep.probe("held_versions_advertised_nothing_fetched");
+                rep.steps += 1;
+            }
+            rep.state.write_u64(n as u64);
+            hooks::gates_uninstall();
+            return rep;
+        }
+
         if g.variant == 1 {
             // ---- periodic list of mostly held records, through the real replicate-request handler -------------------
             let held_n = g.capacity; // the store itself keeps its default capacity's worth of room: build with a big one
